@@ -704,6 +704,397 @@ def gen_utf32():
 GENERATORS["Utf32.lean"] = gen_utf32
 
 
+# ----------------------------------------------------------------------------------------
+# fuzzy_optimal.rs / matrix.rs: the cell functions of the optimal matcher (C02, C03, C04, C10)
+#
+# `next_m_cell`, `p_score`, `MatrixCell::set/get`, the `UNMATCHED` constant and the first-row cell are straight-line
+# integer code; they are translated expression by expression (a small Rust-subset parser), so that the theorems about
+# the compressed matrix are about what these functions say now.  u16/u8 `+` and `*` become `Nat` operations (the
+# absence of overflow is C10's business: overflow checks in the harness build), `saturating_sub` becomes the truncated
+# subtraction of `Nat`, a narrowing `as` cast becomes `% 2^bits`, a widening one disappears.
+
+MINUS_OBLIGATIONS = []
+INT_BITS = {"u8": 8, "u16": 16, "u32": 32, "u64": 64, "usize": 64}
+
+
+class RustExpr:
+    """tokenizer + Pratt parser for the subset; produces Lean text and a (best-effort) type"""
+    TOK = re.compile(r"\s*(?:(\d+)|([A-Za-z_][A-Za-z_0-9]*)|(==|!=|>=|<=|&&|\|\||<<|>>|::|[-+*/%<>=!&|(){},.;:]))")
+    PREC = {"||": 1, "&&": 2, "==": 3, "!=": 3, "<": 3, ">": 3, "<=": 3, ">=": 3, "|": 4, "&": 5, "<<": 6, ">>": 6,
+            "+": 7, "-": 7, "*": 8, "/": 8, "%": 8}
+    LEAN = {"||": "||", "&&": "&&", "==": "==", "!=": "!=", "<": "<", ">": ">", "<=": "≤", ">=": "≥", "|": "|||", "&": "&&&",
+            "<<": "<<<", ">>": ">>>", "+": "+", "*": "*", "/": "/", "%": "%"}
+
+    def __init__(self, text, env, structs, consts):
+        self.toks = []
+        i = 0
+        text = text.strip()
+        while i < len(text):
+            m = self.TOK.match(text, i)
+            if not m:
+                raise TranslateError(f"cannot tokenize {text[i:i+30]!r}")
+            self.toks.append(m.group(1) or m.group(2) or m.group(3))
+            i = m.end()
+        self.i = 0
+        self.env = env          # name -> type
+        self.structs = structs  # struct -> {field: type}
+        self.consts = consts    # const name -> type
+
+    def peek(self):
+        return self.toks[self.i] if self.i < len(self.toks) else None
+
+    def next(self):
+        t = self.peek()
+        self.i += 1
+        return t
+
+    def expect(self, t):
+        if self.next() != t:
+            raise TranslateError(f"expected {t!r} near {' '.join(self.toks[max(0, self.i-4):self.i+3])!r}")
+
+    def done(self):
+        return self.i >= len(self.toks)
+
+    # -- expressions ------------------------------------------------------------------
+    def expr(self, prec=0, no_struct=False):
+        lhs, ty = self.unary(no_struct)
+        while True:
+            op = self.peek()
+            if op == "as":
+                self.next()
+                target = self.next()
+                lhs, ty = self.cast(lhs, ty, target)
+                continue
+            if op not in self.PREC or self.PREC[op] <= prec:
+                return lhs, ty
+            self.next()
+            rhs, rty = self.expr(self.PREC[op], no_struct)
+            if op == "-":
+                # plain `-` panics / wraps on underflow: only between closed constant expressions, with the obligation
+                # `rhs ≤ lhs` emitted as a decided theorem next to the definition
+                names = set(re.findall(r"[A-Za-z_][A-Za-z_0-9]*", lhs + " " + rhs))
+                if not names <= set(self.consts):
+                    raise TranslateError("plain `-` on non-constant unsigned integers is not in the translated subset")
+                MINUS_OBLIGATIONS.append((lhs, rhs))
+                lhs, ty = f"({lhs} - {rhs})", ty or rty
+                continue
+            if op in ("==", "!=") and (ty in self.structs or ty == "bool"):
+                lhs, ty = (f"(decide ({lhs} = {rhs}))" if op == "==" else f"(decide ({lhs} ≠ {rhs}))"), "bool"
+            elif op in ("==", "!=", "<", ">", "<=", ">="):
+                lean = {"==": "=", "!=": "≠"}.get(op, self.LEAN[op])
+                lhs, ty = f"(decide ({lhs} {lean} {rhs}))", "bool"
+            elif op in ("&&", "||"):
+                lhs, ty = f"({lhs} {op} {rhs})", "bool"
+            else:
+                lhs, ty = f"({lhs} {self.LEAN[op]} {rhs})", ty or rty
+        return lhs, ty
+
+    def cast(self, e, ty, target):
+        if target not in INT_BITS:
+            raise TranslateError(f"cast to {target}")
+        if ty == "bool":
+            return f"(if {e} then 1 else 0)", target
+        if ty in INT_BITS and INT_BITS[ty] <= INT_BITS[target]:
+            return e, target
+        if ty is None and re.fullmatch(r"\d+", e):
+            return e, target
+        return f"({e} % {2 ** INT_BITS[target]})", target
+
+    def unary(self, no_struct):
+        t = self.next()
+        if t == "(":
+            e, ty = self.expr()
+            if self.peek() == ",":
+                items = [(e, ty)]
+                while self.peek() == ",":
+                    self.next()
+                    items.append(self.expr())
+                self.expect(")")
+                return "(" + ", ".join(x for x, _ in items) + ")", "(" + ",".join(str(y) for _, y in items) + ")"
+            self.expect(")")
+            return self.postfix(f"({e})" if not e.startswith("(") else e, ty)
+        if t == "!":
+            e, ty = self.unary(no_struct)
+            return f"(!{e})", "bool"
+        if t == "*":     # deref of a reference to a Copy value
+            return self.unary(no_struct)
+        if t == "if":
+            c, _ = self.expr(no_struct=True)
+            self.expect("{")
+            a, aty = self.block()
+            self.expect("else")
+            if self.peek() == "if":
+                b, _ = self.unary(no_struct)
+            else:
+                self.expect("{")
+                b, _ = self.block()
+            return f"(if {c} then {a} else {b})", aty
+        if re.fullmatch(r"\d+", t):
+            return self.postfix(t, None)
+        if t in ("true", "false"):
+            return t, "bool"
+        if re.fullmatch(r"[A-Za-z_][A-Za-z_0-9]*", t):
+            if t in self.structs and self.peek() == "{" and not no_struct:
+                self.next()
+                fields = []
+                while self.peek() != "}":
+                    f = self.next()
+                    if self.peek() == ":":
+                        self.next()
+                        v, _ = self.expr()
+                    else:
+                        v = f
+                    fields.append((f, v))
+                    if self.peek() == ",":
+                        self.next()
+                self.expect("}")
+                if sorted(f for f, _ in fields) != sorted(self.structs[t]):
+                    raise TranslateError(f"struct literal {t} with fields {[f for f, _ in fields]}")
+                return "{ " + ", ".join(f"{f} := {v}" for f, v in fields) + f" : {t} }}", t
+            if self.peek() == "(":      # function call
+                self.next()
+                args = []
+                while self.peek() != ")":
+                    args.append(self.expr())
+                    if self.peek() == ",":
+                        self.next()
+                self.expect(")")
+                if t == "max" and len(args) == 2:
+                    return self.postfix(f"(max {args[0][0]} {args[1][0]})", args[0][1] or args[1][1])
+                raise TranslateError(f"call of {t}")
+            if t in self.env:
+                return self.postfix(t, self.env[t])
+            if t in self.consts:
+                return self.postfix(t, self.consts[t])
+            raise TranslateError(f"unknown name {t}")
+        raise TranslateError(f"unexpected token {t!r}")
+
+    def postfix(self, e, ty):
+        while self.peek() == ".":
+            self.next()
+            name = self.next()
+            if self.peek() == "(":
+                self.next()
+                args = []
+                while self.peek() != ")":
+                    args.append(self.expr())
+                    if self.peek() == ",":
+                        self.next()
+                self.expect(")")
+                if name == "saturating_sub" and len(args) == 1:
+                    e = f"({e} - {args[0][0]})"
+                elif name == "min" and len(args) == 1:
+                    e = f"(min {e} {args[0][0]})"
+                else:
+                    raise TranslateError(f"method {name}")
+            elif re.fullmatch(r"\d+", name):      # tuple-struct field `self.0`
+                if ty in self.structs and name in self.structs[ty]:
+                    e, ty = f"{e}.f{name}", self.structs[ty][name]
+                else:
+                    raise TranslateError(f"tuple field .{name} of {ty}")
+            else:
+                if ty in self.structs and name in self.structs[ty]:
+                    e, ty = f"{e}.{name}", self.structs[ty][name]
+                else:
+                    raise TranslateError(f"field .{name} of {ty}")
+        return e, ty
+
+    # -- blocks: `let`, `if c { x = e }`, `if c { return e; }`, `x = e;`, tail expression ------
+    def block(self):
+        """after the opening brace; consumes the closing one; returns Lean text of the block's value"""
+        t = self.peek()
+        if t == "}":
+            raise TranslateError("block without a value")
+        if t == "let":
+            self.next()
+            mut = self.peek() == "mut"
+            if mut:
+                self.next()
+            if self.peek() == "(":
+                raise TranslateError("tuple patterns are not in the subset")
+            name = self.next()
+            if self.peek() == ":":
+                self.next(); self.next()
+            self.expect("=")
+            v, ty = self.expr()
+            self.expect(";")
+            self.env = dict(self.env, **{name: ty})
+            rest, rty = self.block()
+            return f"let {name} := {v}\n  {rest}", rty
+        if t == "return":
+            self.next()
+            v, ty = self.expr()
+            if self.peek() == ";":
+                self.next()
+            self.expect("}")
+            return v, ty
+        if t == "if":
+            # statement forms first: `if c { return e; }` and `if c { x = e }`
+            save = self.i
+            self.next()
+            c, _ = self.expr(no_struct=True)
+            self.expect("{")
+            if self.peek() == "return":
+                self.next()
+                v, ty = self.expr()
+                if self.peek() == ";":
+                    self.next()
+                self.expect("}")
+                rest, _ = self.block()
+                return f"if {c} then {v} else\n  {rest}", ty
+            if self.i + 1 < len(self.toks) and self.toks[self.i + 1] == "=" and self.toks[self.i] in self.env:
+                name = self.next()
+                self.next()
+                v, _ = self.expr()
+                if self.peek() == ";":
+                    self.next()
+                self.expect("}")
+                if self.peek() == ";":
+                    self.next()
+                rest, rty = self.block()
+                return f"let {name} := if {c} then {v} else {name}\n  {rest}", rty
+            self.i = save
+        if self.i + 1 < len(self.toks) and self.toks[self.i + 1] == "=" and t in self.env:
+            name = self.next()
+            self.next()
+            v, _ = self.expr()
+            self.expect(";")
+            rest, rty = self.block()
+            return f"let {name} := {v}\n  {rest}", rty
+        v, ty = self.expr()
+        self.expect("}")
+        return v, ty
+
+
+def rust_struct_fields(src, name):
+    m = re.search(r"struct\s+%s\s*\{(.*?)\}" % name, src, re.S)
+    if m:
+        fields = re.findall(r"(?:pub(?:\([a-z]+\))?\s+)?([a-z_]+)\s*:\s*([A-Za-z0-9_]+)", m.group(1))
+        return dict(fields)
+    m = re.search(r"struct\s+%s\s*\(((?:[^()]|\([a-z]+\))*)\)" % name, src)
+    if m:
+        tys = [re.sub(r"^pub\s*(\([a-z]+\))?\s*", "", t.strip()) for t in m.group(1).split(",") if t.strip()]
+        return {str(i): t for i, t in enumerate(tys)}
+    raise TranslateError(f"struct {name} not found")
+
+
+def lean_ty(t):
+    return "Bool" if t == "bool" else "Nat" if t in INT_BITS else t
+
+
+def translate_fn(src_body, params, structs, consts):
+    env = dict(params)
+    px = RustExpr(src_body.strip()[1:], env, structs, consts)   # after the opening brace
+    text, ty = px.block()
+    if not px.done():
+        raise TranslateError("trailing tokens after the function body")
+    return text, ty
+
+
+def gen_optimal():
+    del MINUS_OBLIGATIONS[:]
+    msrc = strip_comments(read("matcher/src/matrix.rs"))
+    osrc = strip_comments(read("matcher/src/fuzzy_optimal.rs"))
+    structs = {"ScoreCell": rust_struct_fields(msrc, "ScoreCell"), "MatrixCell": rust_struct_fields(msrc, "MatrixCell")}
+    if sorted(structs["ScoreCell"].items()) != [("consecutive_bonus", "u8"), ("matched", "bool"), ("score", "u16")]:
+        raise TranslateError(f"ScoreCell has fields {structs['ScoreCell']}")
+    if structs["MatrixCell"] != {"0": "u8"}:
+        raise TranslateError(f"MatrixCell is {structs['MatrixCell']}")
+    consts = {k: "u16" for k in ("SCORE_MATCH", "PENALTY_GAP_START", "PENALTY_GAP_EXTENSION", "BONUS_BOUNDARY", "BONUS_CONSECUTIVE",
+                                "BONUS_FIRST_CHAR_MULTIPLIER", "MAX_PREFIX_BONUS", "PREFIX_BONUS_SCALE")}
+    out = ["/- GENERATED by translator/translate.py from matcher/src/fuzzy_optimal.rs and matcher/src/matrix.rs — do not edit -/",
+           "import NucleoVerif.Gen.Consts", "namespace NucleoVerif.Gen.Opt", "open NucleoVerif.Gen", "",
+           "/-- `matrix.rs: struct ScoreCell` (u16 / u8 fields as `Nat`) -/",
+           "structure ScoreCell where"]
+    order = re.search(r"struct\s+ScoreCell\s*\{(.*?)\}", msrc, re.S).group(1)
+    for f in re.findall(r"([a-z_]+)\s*:", order):
+        out.append(f"  {f} : {lean_ty(structs['ScoreCell'][f])}")
+    out += ["deriving DecidableEq, Repr, Inhabited", "",
+            "/-- `matrix.rs: struct MatrixCell(u8)` -/", "structure MatrixCell where", "  f0 : Nat", "deriving DecidableEq, Repr, Inhabited", ""]
+    # UNMATCHED
+    m = re.search(r"const\s+UNMATCHED\s*:\s*ScoreCell\s*=\s*(ScoreCell\s*\{.*?\})\s*;", osrc, re.S)
+    if not m:
+        raise TranslateError("const UNMATCHED not found")
+    e, _ = RustExpr(m.group(1), {}, structs, consts).expr()
+    out += ["/-- `const UNMATCHED` -/", f"def UNMATCHED : ScoreCell := {e}", ""]
+    consts["UNMATCHED"] = "ScoreCell"
+    bodies = fn_bodies(osrc)
+    mbodies = fn_bodies(msrc)
+    def sig(src, name):
+        mm = re.search(r"fn\s+%s\s*\(([^)]*)\)\s*(?:->\s*([^{]+))?\{" % name, src)
+        if not mm:
+            raise TranslateError(f"fn {name} not found")
+        params = []
+        for p in mm.group(1).split(","):
+            p = p.strip()
+            if not p or p in ("&self", "&mut self", "self"):
+                continue
+            n, t = [x.strip() for x in p.split(":")]
+            params.append((n.replace("mut ", ""), t))
+        return params, (mm.group(2) or "").strip()
+    for name in ("next_m_cell", "p_score"):
+        if len(bodies.get(name, [])) != 1:
+            raise TranslateError(f"expected exactly one fn {name}")
+        params, ret = sig(osrc, name)
+        text, _ = translate_fn(bodies[name][0], params, structs, consts)
+        rty = {"ScoreCell": "ScoreCell", "(u16, bool)": "Nat × Bool"}.get(ret)
+        if rty is None:
+            raise TranslateError(f"fn {name} returns {ret}")
+        out += [f"/-- `fuzzy_optimal.rs: fn {name}` -/",
+                f"def {name} " + " ".join(f"({n} : {lean_ty(t)})" for n, t in params) + f" : {rty} :=\n  {text}", ""]
+    # MatrixCell::set / get
+    params, _ = sig(msrc, "set")
+    body = mbodies["set"][0]
+    mm = re.fullmatch(r"\{\s*self\.0\s*=\s*(.*?);\s*\}", body.strip(), re.S)
+    if not mm:
+        raise TranslateError("MatrixCell::set is not a single assignment to self.0")
+    e, _ = RustExpr(mm.group(1), dict(params), structs, consts).expr()
+    out += ["/-- `MatrixCell::set` (the new value of the cell) -/",
+            "def MatrixCell.set " + " ".join(f"({n} : {lean_ty(t)})" for n, t in params) + f" : MatrixCell := ⟨{e}⟩", ""]
+    params, _ = sig(msrc, "get")
+    text, _ = translate_fn(mbodies["get"][0], [("self", "MatrixCell")] + params, structs, consts)
+    out += ["/-- `MatrixCell::get` -/",
+            "def MatrixCell.get (self : MatrixCell) " + " ".join(f"({n} : {lean_ty(t)})" for n, t in params) + f" : Bool :=\n  {text}", ""]
+    # the first-row cell and the initial prefix bonus inside score_row / setup
+    sr = bodies.get("score_row", [None])[0]
+    if sr is None:
+        raise TranslateError("fn score_row not found")
+    cells = re.findall(r"if\s+(c|c\[0\])\s*==\s*needle_char\s*\{\s*(ScoreCell\s*\{.*?\})\s*\}\s*else\s*\{\s*UNMATCHED\s*\}\s*;\s*"
+                       r"prefix_bonus\s*=\s*(prefix_bonus\.saturating_sub\([A-Z_]+\))\s*;", sr, re.S)
+    if len(cells) != 2:
+        raise TranslateError(f"expected the first-row cell twice in score_row, found {len(cells)}")
+    forms = []
+    for which, lit, dec in cells:
+        lit = lit.replace("*bonus", "bonus").replace("bonus[0]", "bonus")
+        e, _ = RustExpr(lit, {"bonus": "u8", "prefix_bonus": "u16"}, structs, consts).expr()
+        d, _ = RustExpr(dec, {"prefix_bonus": "u16"}, structs, consts).expr()
+        forms.append((e, d))
+    if forms[0] != forms[1]:
+        raise TranslateError("the two loops of score_row build different first-row cells")
+    out += ["/-- the first-row cell of `score_row::<FIRST_ROW = true>` for a column whose character equals the first needle character "
+            "(both loops build the same one) -/",
+            f"def first_row_cell (bonus : Nat) (prefix_bonus : Nat) : ScoreCell :=\n  {forms[0][0]}", "",
+            "/-- how `prefix_bonus` changes from one column to the next -/",
+            f"def prefix_bonus_next (prefix_bonus : Nat) : Nat := {forms[0][1]}", ""]
+    su = bodies.get("setup", [None])[0]
+    mm = re.search(r"if\s+config\.prefer_prefix\s*\{\s*if\s+start\s*==\s*0\s*\{(.*?)\}\s*else\s*\{(.*?)\}\s*\}\s*else\s*\{\s*0\s*\}", su or "", re.S)
+    if not mm:
+        raise TranslateError("the prefix bonus argument of setup's score_row call has an unexpected shape")
+    a, _ = RustExpr(mm.group(1), {}, structs, consts).expr()
+    btxt = mm.group(2).replace("u16::MAX as u32", "65535").replace("(start - 1)", "start_minus_1")
+    b, _ = RustExpr(btxt, {"start_minus_1": "u32"}, structs, consts).expr()
+    # `MAX*SCALE - GAP_START` on constants: plain `-` is outside the subset; handled textually above? check
+    out += ["/-- the `prefix_bonus` argument `setup` passes to the first row (`start`: window start in the haystack) -/",
+            f"def prefix_bonus_init (prefer_prefix : Bool) (start : Nat) : Nat :=\n  if prefer_prefix then (if start = 0 then {a} else (let start_minus_1 := start - 1; {b})) else 0", ""]
+    for k, (l, r) in enumerate(MINUS_OBLIGATIONS):
+        out += [f"/-- the plain `-` between constants does not underflow -/", f"theorem minus_ok_{k} : {r} ≤ {l} := by decide", ""]
+    out.append("end NucleoVerif.Gen.Opt")
+    return "\n".join(out) + "\n"
+
+
+GENERATORS["Optimal.lean"] = gen_optimal
+
+
 def main():
     changed = []
     for name, fn in GENERATORS.items():
